@@ -36,6 +36,7 @@ type verifBank struct {
 	calls    []verifBankCall
 	blocked  []string
 	failAll  bool // when set, every transfer / burn fails
+	maxFaults int // when > 0, only the first maxFaults calls consult a fault flag
 	faults   bool // when set, every transfer / burn consults a fresh symbolic fault flag
 	nfault   int
 	faultLog []bool
@@ -165,6 +166,9 @@ func (b *verifBank) fault() bool {
 		return false
 	}
 	b.nfault++
+	if b.maxFaults > 0 && b.nfault > b.maxFaults {
+		return false
+	}
 	var f bool
 	switch b.nfault {
 	case 1:
